@@ -106,9 +106,9 @@ def rule_dof_guard(F, ev, R, config, rule="R-DOF-GUARD", checked=True):
         return
     seen_under = set()
     for b, bi, si, s in ctors:
-        env = Env(b)
         ev.fresh_ctx()
-        agg = ev.rvalue(env, s["rv"], (bi, si))
+        from rules_stats2 import lift_positional_ctor
+        b, env, bi, agg, s = lift_positional_ctor(F, ev, b, bi, si, s)
         if role is not None:
             dof = dict(agg[3]).get(role)
         else:
